@@ -433,7 +433,10 @@ def run(ctx):
         nruns = 4 if ctx.quick() else 12
         agg = storelib.random_runs(ctx, spool, scov, [dict(seed=ctx.seed * 1000 + 700 + i, n=(150 if ctx.quick() else 400), caps=([3, 3] if i % 2 else []),
                                                             cache=(0 if i % 4 < 2 else 12), pcrash=0, pflush=0.5, wal=False, maxrows=(4 if i % 2 else 12),
-                                                            pagert=True) for i in range(nruns)])
+                                                            pagert=True) for i in range(nruns)] +
+                                   # bulk statements: several hundred three-cell pages are dirty when the flush starts
+                                   [dict(seed=ctx.seed * 1000 + 760 + i, n=(8 if ctx.quick() else 20), caps=[3, 3], cache=0, pcrash=0, pflush=0.5, wal=False,
+                                         maxrows=1200, bias="grow", pagert=True) for i in range(1 if ctx.quick() else 3)])
         cov["store_level_runs"] = dict(runs=agg["runs"], statements=agg["statements"], flushes=agg["flushes"],
                                        order_events=agg.get("order_events_accepted_by_walorder", 0), pages_round_tripped=agg.get("pages_round_tripped", 0))
         if not agg.get("pages_round_tripped") and not ctx.violations:
